@@ -390,3 +390,10 @@ Proof.
   intros H; inversion H; subst; clear H. unfold query_size; simpl.
   apply conflicts_repaired_linear in Ec. lia.
 Qed.
+
+(** The bomb as a document (what the client sends), for the examples of Props/C15.v. *)
+Definition bomb_doc (nm : nat -> string) (n : nat) : gdoc :=
+  GOperation "query" None [] [] [GSpread (nm 0) []] ::
+  map (fun i => GFragmentDef (nm i) "Query" []
+                  (if Nat.ltb i n then [GSpread (nm (S i)) []; GSpread (nm (S i)) []] else [GField None "a" [] [] None]))
+      (seq 0 (S n)).
